@@ -12,7 +12,7 @@ import vlib
 
 LEVEL_TEXT = ('Tie: the coefficient formula / guard / term count / exponents of R, the decision tree and leaf products of zernike, the pieces of '
               'zernike_index (row-search argument, k, r, sign, seeds, loop, append step), the default origin of zernike_coordinates, helper.mesh and the block of zernike that decides where (rho, theta) come from (Gen.zernCoordSrc: no rho -> zernike_coordinates(mask), rho without theta -> ValueError, both -> the caller\'s arrays; coordinate_source_dispatch) are '
-              're-translated from the source on every run (Gen/ZernikeR, Gen/Mesh); so are angle = (90 - rotate)·pi/180 and the complex argument of theta = np.angle(…) of zernike_coordinates (Gen.zAngle, Gen.zThetaArg — the model\'s theta is atan2 of the regenerated imaginary and real part: theta_regenerated), and the centroid the default origin is built from is proved to be the regenerated util.centroid (Gen.centroid) applied to the 0/1 mask (default_centroid_is_regenerated); the body of zernike is now covered statement by statement (cast, coordinate block, index call, tree, return: anything else is refused); the model and the driver are built from them. '
+              're-translated from the source on every run (Gen/ZernikeR, Gen/Mesh); so are angle = (90 - rotate)·pi/180 and the complex argument of theta = np.angle(…) of zernike_coordinates (and the complex argument of r = np.abs(…): Gen.zRadArg, radius_regenerated) (Gen.zAngle, Gen.zThetaArg — the model\'s theta is atan2 of the regenerated imaginary and real part: theta_regenerated), and the centroid the default origin is built from is proved to be the regenerated util.centroid (Gen.centroid) applied to the 0/1 mask (default_centroid_is_regenerated); the body of zernike is now covered statement by statement (cast, coordinate block, index call, tree, return: anything else is refused); the model and the driver are built from them. '
               'Lean 4 theorems: Noll j -> (n, m) is valid (|m| <= n, n-|m| even, even j <-> cosine/+, odd j <-> sine/-) and a bijection '
               'onto the valid (n, m) (explicit inverse, both round trips, all j >= 1); the literal list-and-negative-index code of '
               'zernike_index equals the closed form for every j >= 1 and its row search is the Noll row in exact real arithmetic; '
